@@ -25,4 +25,18 @@ namespace Seed
 #print axioms set_wf
 #print axioms scopeDeclare_spec
 #print axioms scopeAssign_spec
+#print axioms keepsWF
+#print axioms evalProg_state_wf
+#print axioms evalProg_ok_sorted
+#print axioms evalProg_err_wf
+#print axioms evalProg_err_sorted
+#print axioms evalProg_state_sorted
+#print axioms evalExpr_keeps_sorted
+#print axioms evalStmts_keeps_sorted
+#print axioms evalStmt_keeps_sorted
+#print axioms evalExpr_obj_sorted
+#print axioms WF.sorted
+#print axioms Safe.state_wf
+#print axioms set_obj_wf
+#print axioms objInsert_foldl_sorted
 end Seed
